@@ -80,20 +80,24 @@ type diagnosticInSourcePackage struct {
 	pkg     sourceaddrs.RemotePackage
 }
 
-// inRemoteSourcePackage modifies the reciever in-place so that all of the
-// diagnostics will have their source filenames (if any) interpreted as
-// sub-paths within the given source package.
+// inRemoteSourcePackage returns diagnostics equivalent to the receiver except
+// that their source filenames (if any) are interpreted as sub-paths within the
+// given source package.
 //
-// For convenience, returns the same diags slice whose backing array has now
-// been modified with different diagnostics.
+// The receiver is left alone: it belongs to the dependency finder that
+// returned it, which may well return the same value again for another package.
 func (diags Diagnostics) inRemoteSourcePackage(pkg sourceaddrs.RemotePackage) Diagnostics {
+	if len(diags) == 0 {
+		return diags
+	}
+	ret := make(Diagnostics, len(diags))
 	for i, diag := range diags {
-		diags[i] = diagnosticInSourcePackage{
+		ret[i] = diagnosticInSourcePackage{
 			wrapped: diag,
 			pkg:     pkg,
 		}
 	}
-	return diags
+	return ret
 }
 
 var _ Diagnostic = diagnosticInSourcePackage{}
